@@ -63,6 +63,32 @@ Section C16.
                      (data_try_from_struct_ok pf reparse reparse_arr reparse_preds sugg sim interp_with interp_fn interp_attrs vc fc))).
   Qed.
 
+  (** A failing enum body reports, in source order, the error of EVERY failing variant, each located
+      under the name of its variant (as the errors of named fields are under the field's name). *)
+  Theorem C16_failing_variants_all_reported_and_located :
+    forall vc fc vs e,
+      data_try_from vc fc (DEnum vs) = Err e ->
+      let errs := flat_map (fun ve => match from_variant vc ve with Err x => [at_ (ve_ident ve) x] | _ => [] end) vs in
+      errs <> [] /\ multiple errs = POk e.
+  Proof. exact (data_try_from_enum_err pf reparse reparse_arr reparse_preds sugg sim interp_with interp_fn interp_attrs). Qed.
+
+  (** `generics` mirrored through [ast::Generics]: the where-clause unchanged, one entry per
+      parameter in order; when it fails, every failing parameter is reported, in order. *)
+  Theorem C16_generics_mirror :
+    forall tc g,
+      (forall v, from_generics pf reparse reparse_arr reparse_preds sugg sim interp_with interp_fn interp_attrs (GcMirror tc) g = Ok v ->
+         exists vals, v = VStruct [("params", VList vals); ("where_clause", opt_toks (g_where g))]
+                      /\ List.length vals = List.length (g_params g))
+      /\ (forall e, from_generics pf reparse reparse_arr reparse_preds sugg sim interp_with interp_fn interp_attrs (GcMirror tc) g = Err e ->
+           let es := errs_of (map (param_result pf reparse reparse_arr reparse_preds sugg sim interp_with interp_fn interp_attrs tc) (g_params g)) in
+           es <> [] /\ multiple es = POk e /\ len e = sumN (map len es)).
+  Proof.
+    intros tc g. split.
+    - intros v H. destruct (generics_mirror_ok pf reparse reparse_arr reparse_preds sugg sim interp_with interp_fn interp_attrs tc g v H) as [vals [E [L _]]].
+      exists vals. split; assumption.
+    - exact (generics_mirror_err pf reparse reparse_arr reparse_preds sugg sim interp_with interp_fn interp_attrs tc g).
+  Qed.
+
   (** The magic members of a field receiver are exactly the field's identifier, visibility and
       type, in that order before everything else. *)
   Theorem C16_field_members_are_projections :
@@ -88,3 +114,5 @@ Print Assumptions C16_fields_same_style_count_order.
 Print Assumptions C16_data_same_kind.
 Print Assumptions C16_field_members_are_projections.
 Print Assumptions C16_builtin_field_targets.
+Print Assumptions C16_failing_variants_all_reported_and_located.
+Print Assumptions C16_generics_mirror.
